@@ -22,7 +22,7 @@ ASSUMPTIONS = [
 	"valid identifier = str.isidentifier() (keywords are reachable through getattr and are not flagged)",
 	"the disambiguation scheme for repeated / reserved names is free as long as names are distinct and resolve by position",
 	"sanitisation equality is judged only for names whose documented reading is unambiguous (no double underscore after substitution)",
-	"non-string column names are not generated",
+	"non-string column names (1, True, 0, False, 0.0, 2.5, Fraction, Decimal) are judged in two-column tables only: dir(), getattr and the dot row of repr",
 ]
 EXHAUSTIVE = {"flag": True, "scope": "all ordered pairs over the 46-name dictionary (triples and wider lists sampled); histories sampled"}
 ANCHOR_FUNCS = ["naming:_sanitize_user_name", "table:Table._build_column_map", "table:Table.__getattr__", "table:Table.__dir__", "table:Table.__setitem__",
@@ -461,6 +461,9 @@ def run_label_accessors(chk, spec):
 		g = call(getattr, t, sp[x])
 		if not g.ok or g.value is not t.cols()[0]:
 			chk.fail("each advertised name resolves by attribute access to the column at its own position", "accessor/advertised-name-unresolvable/non-string-label", f"{spec!r}: t.{sp[x]} -> {g!r}")
+			return
+		# ... and the dot row of repr advertises that very name (one accessor per column, whichever way it is advertised)
+		if not check_repr_dots(chk, t, {sp[x]: 0, "z": 1}, "non-string-label", spec):
 			return
 
 
